@@ -30,6 +30,11 @@ class BoomK(Boom, KeyError):
     """a failing comparison whose exception happens to be a KeyError (e.g. a POSKeyError while loading the other key)"""
 
 
+class BoomV(Boom, ValueError):
+    """a failing comparison whose exception happens to be a ValueError (the class the range code itself raises for
+    "no key satisfies the conditions")"""
+
+
 class TV:
     """value object whose instances are counted (leak detection)"""
     __slots__ = ("n",)
@@ -214,7 +219,7 @@ def run(ctx):
             live0 = CK.live + TV.live       # the keys and values of 'base' only
             cand_keys = sorted(set(rng.sample(present, min(3, len(present))) + [rng.randrange(-1, 2 * u + 1) for _ in range(2)]))
             for k in cand_keys:
-                ops = ["get", "set", "del", "range", "minkey", "rangelen"] + (["discard"] if setlike else ["pop", "popitem"])
+                ops = ["get", "set", "del", "range", "minkey", "maxkey", "rangelen"] + (["discard", "ixor", "ior", "isub", "iand"] if setlike else ["pop", "popitem"])
                 held = []            # a lazy sequence kept across the failing call (rangelen)
                 for op in ops:
                     def do(t, key):
@@ -233,6 +238,11 @@ def run(ctx):
                             return [x for x in t.keys(key, CK(key.n + 5))]   # (not list(): its length hint swallows a TypeError raised by __len__)
                         if op == "minkey":
                             return t.minKey(key)
+                        if op == "maxkey":
+                            return t.maxKey(key)
+                        if op in ("ixor", "ior", "isub", "iand"):
+                            import operator
+                            return getattr(operator, op)(t, [key])      # one element: a bulk operator is a fold of single operations
                         if op == "pop":
                             return t.pop(key, None)
                         if op == "discard":
@@ -264,6 +274,9 @@ def run(ctx):
                             # a KeyError SUBCLASS raised by a comparison (a POSKeyError while the other key is loaded) is
                             # not "key not found": both implementations let it through
                             CK.exc = BoomK
+                        if op in ("minkey", "maxkey", "range", "rangelen") and n % 3 == 2:
+                            # "no key satisfies the conditions" is a ValueError too: one raised by a COMPARISON is not that
+                            CK.exc = BoomV
                         CK_exc_was = CK.exc
                         outcome = None
                         try:
@@ -278,7 +291,7 @@ def run(ctx):
                         ctx.count((fn, kind, impl, tuple(keys_in), tuple(keys_del), op, k, n))
                         bad = None
                         if outcome != "boom":
-                            bad = "exception-not-propagated%s:" % ("-keyerror-subclass" if CK_exc_was is BoomK else "") + outcome
+                            bad = "exception-not-propagated%s:" % ("-keyerror-subclass" if CK_exc_was is BoomK else "-valueerror-subclass" if CK_exc_was is BoomV else "") + outcome
                         else:
                             try:
                                 now = contents(t, setlike)
